@@ -37,6 +37,7 @@ func init() {
 var impTargets = []trTarget{
 	{"m", "", "NextRotateSwitchBlock"},
 	{"m", "", "TransformToReturnBlock"},
+	{"m", "SwitchPath", "CalculateBlockSize"},
 }
 
 const impPrelude = `(* ---- in-place byte-slice functions translated by harness/gen_translate_imp.go ----
@@ -102,7 +103,9 @@ type impTr struct {
 	nLoops  int
 	sites   int
 	siteDoc []string
-	inLoop  bool
+	inLoop  bool // inside a generated loop function (results are options)
+	depth   int
+	hopsObj types.Object // receiver whose .Hops is the read-only hop list
 }
 
 func (t *impTr) text(n ast.Node) string { return nodeText(t.p.fset, n) }
@@ -233,6 +236,17 @@ func (t *impTr) expr(e ast.Expr, g *decGuards) string {
 		case token.NEQ:
 			return "(negb (" + l + " =? " + r + ")%Z)"
 		}
+	case *ast.SelectorExpr:
+		// sp.Hops[i].ForwardLabel / .ReturnLabel
+		if ix, ok := v.X.(*ast.IndexExpr); ok && t.isHops(ix.X) && (v.Sel.Name == "ForwardLabel" || v.Sel.Name == "ReturnLabel") {
+			i := t.expr(ix.Index, g)
+			g.add(fmt.Sprintf("go_inb (Z.of_nat (length hops)) %s", i))
+			proj := "fst"
+			if v.Sel.Name == "ReturnLabel" {
+				proj = "snd"
+			}
+			return fmt.Sprintf("(Z.of_N (%s (nth (Z.to_nat %s) hops (0%%N, 0%%N))))", proj, i)
+		}
 	case *ast.IndexExpr:
 		if lo, hi, ok := t.view(v.X, g); ok {
 			i := t.expr(v.Index, g)
@@ -257,9 +271,17 @@ func (t *impTr) expr(e ast.Expr, g *decGuards) string {
 				}
 			}
 		}
+		if fun == "len" && len(v.Args) == 1 && t.isHops(v.Args[0]) {
+			return "(Z.of_nat (length hops))"
+		}
 		if fun == "len" && len(v.Args) == 1 {
 			if lo, hi, ok := t.view(v.Args[0], g); ok {
 				return "(" + hi + " - " + lo + ")%Z"
+			}
+		}
+		if sel, ok := v.Fun.(*ast.SelectorExpr); ok && len(v.Args) == 0 && sel.Sel.Name == "EncodedSize" {
+			if inner, ok := sel.X.(*ast.SelectorExpr); ok && (inner.Sel.Name == "ForwardLabel" || inner.Sel.Name == "ReturnLabel") {
+				return fmt.Sprintf("(go_SwitchLabel_EncodedSize (Z.to_N %s))", t.expr(sel.X, g))
 			}
 		}
 		if sel, ok := v.Fun.(*ast.SelectorExpr); ok && len(v.Args) == 0 {
@@ -276,6 +298,16 @@ func (t *impTr) expr(e ast.Expr, g *decGuards) string {
 	}
 	trFail("unsupported expression %s", t.text(e))
 	return ""
+}
+
+// isHops: e is <receiver>.Hops
+func (t *impTr) isHops(e ast.Expr) bool {
+	sel, ok := e.(*ast.SelectorExpr)
+	if !ok || sel.Sel.Name != "Hops" || t.hopsObj == nil {
+		return false
+	}
+	x, ok := sel.X.(*ast.Ident)
+	return ok && t.p.info.Uses[x] == t.hopsObj
 }
 
 func (t *impTr) kindOf(e ast.Expr) string {
@@ -444,28 +476,42 @@ func (t *impTr) assigned(n ast.Node) (vars []types.Object, writes bool) {
 }
 
 func (t *impTr) loop(f *ast.ForStmt, label string, d int, k impCont) string {
-	// shape: for i := 0; i < len(S); i++
+	// shape: for i := INIT; i < BOUND (or <=); i++   with BOUND not assigned in the body
 	init, ok := f.Init.(*ast.AssignStmt)
-	if !ok || init.Tok != token.DEFINE || len(init.Lhs) != 1 || t.text(init.Rhs[0]) != "0" {
+	if !ok || init.Tok != token.DEFINE || len(init.Lhs) != 1 {
 		trFail("unsupported loop header")
 	}
 	iv := init.Lhs[0].(*ast.Ident)
 	cond, ok := f.Cond.(*ast.BinaryExpr)
-	if !ok || cond.Op != token.LSS || t.text(cond.X) != iv.Name {
+	if !ok || (cond.Op != token.LSS && cond.Op != token.LEQ) || t.text(cond.X) != iv.Name {
 		trFail("unsupported loop condition")
 	}
 	if inc, ok := f.Post.(*ast.IncDecStmt); !ok || inc.Tok != token.INC || t.text(inc.X) != iv.Name {
 		trFail("unsupported loop increment")
 	}
-	if t.inLoop {
-		trFail("nested loops are not supported")
-	}
 	var g0 decGuards
+	initT := t.expr(init.Rhs[0], &g0)
 	bound := t.expr(cond.Y, &g0) // evaluated in the current environment: the fuel
 	if len(g0.g) > 0 {
 		trFail("guarded loop bound")
 	}
+	fuelT := "(Z.to_nat (" + bound + " - " + initT + ")%Z)"
+	if cond.Op == token.LEQ {
+		fuelT = "(Z.to_nat (" + bound + " - " + initT + " + 1)%Z)"
+	}
 	state, _ := t.assigned(f.Body)
+	for _, o := range state {
+		bad := false
+		ast.Inspect(cond.Y, func(n ast.Node) bool {
+			if id, ok := n.(*ast.Ident); ok && t.p.info.Uses[id] == o {
+				bad = true
+			}
+			return true
+		})
+		if bad {
+			trFail("loop bound is assigned in the loop body")
+		}
+	}
 	t.nLoops++
 	lname := fmt.Sprintf("%s_loop%d", t.fname, t.nLoops)
 	// parameters: fuel, i, memory, every scalar variable currently defined (state ones are threaded)
@@ -494,11 +540,15 @@ func (t *impTr) loop(f *ast.ForStmt, label string, d int, k impCont) string {
 		return "(" + strings.Join(parts, ", ") + ")"
 	}
 	// ---- body of the Fixpoint ----
+	wasInLoop := t.inLoop
 	t.inLoop = true
 	iName := t.define(t.p.info.Defs[iv], "Z")
 	loopMem := t.mem
 	recur := func(d int) string {
 		args := []string{"fuel'", "(" + iName + " + 1)%Z", t.mem}
+		if t.hopsObj != nil {
+			args = append(args, "hops")
+		}
 		for _, p := range params {
 			args = append(args, t.vars[p.o].name)
 		}
@@ -517,6 +567,9 @@ func (t *impTr) loop(f *ast.ForStmt, label string, d int, k impCont) string {
 	body := t.stmts(f.Body.List, 3, impCont{next: recur, brk: exit, labels: labels})
 	var ps []string
 	ps = append(ps, "(fuel : nat)", fmt.Sprintf("(%s : Z)", iName), fmt.Sprintf("(%s : list N)", loopMem))
+	if t.hopsObj != nil {
+		ps = append(ps, "(hops : list (N * N))")
+	}
 	for _, p := range params {
 		ps = append(ps, fmt.Sprintf("(%s : %s)", p.name, p.kind))
 	}
@@ -535,10 +588,13 @@ func (t *impTr) loop(f *ast.ForStmt, label string, d int, k impCont) string {
 	}
 	t.loops = append(t.loops, fmt.Sprintf("Fixpoint %s %s {struct fuel} : option (%s) :=\n  match fuel with\n  | O => %s\n  | S fuel' =>\n    if negb %s then %s else\n%s\n  end.",
 		lname, strings.Join(ps, " "), strings.Join(tys, " * "), exitHere(), condT, exitHere(), body))
-	t.inLoop = false
+	t.inLoop = wasInLoop
 	// ---- call site ----
 	t.mem, t.vars, t.order = outerMem, outerVars, outerOrder
-	args := []string{"(Z.to_nat " + bound + ")", "0%Z", t.mem}
+	args := []string{fuelT, initT, t.mem}
+	if t.hopsObj != nil {
+		args = append(args, "hops")
+	}
 	for _, p := range params {
 		args = append(args, outerVars[p.o].name)
 	}
@@ -549,7 +605,11 @@ func (t *impTr) loop(f *ast.ForStmt, label string, d int, k impCont) string {
 		pat = append(pat, n)
 	}
 	pat = append(pat, t.newMem())
-	return fmt.Sprintf("%smatch %s %s with\n%s| None => IPanic\n%s| Some (%s) =>\n%s\n%send", decInd(d), lname, strings.Join(args, " "), decInd(d), decInd(d), strings.Join(pat, ", "), k.next(d+1), decInd(d))
+	failT := "IPanic"
+	if t.inLoop {
+		failT = "None"
+	}
+	return fmt.Sprintf("%smatch %s %s with\n%s| None => %s\n%s| Some (%s) =>\n%s\n%send", decInd(d), lname, strings.Join(args, " "), decInd(d), failT, decInd(d), strings.Join(pat, ", "), k.next(d+1), decInd(d))
 }
 
 func (t *impTr) ret(rs *ast.ReturnStmt, d int) string {
@@ -639,6 +699,10 @@ func (t *impTr) stmts(list []ast.Stmt, d int, k impCont) string {
 					return next(d)
 				}
 				sp := specs[i]
+				if len(sp.Names) == 1 && len(sp.Values) == 0 && t.text(sp.Type) == "int" {
+					n := t.define(t.obj(sp.Names[0]), "Z")
+					return fmt.Sprintf("%slet %s := 0%%Z in\n%s", decInd(d), n, emit(i+1, d))
+				}
 				if len(sp.Names) != 1 || len(sp.Values) != 1 {
 					trFail("unsupported var declaration %s", t.text(sp))
 				}
@@ -673,6 +737,31 @@ func (t *impTr) stmts(list []ast.Stmt, d int, k impCont) string {
 					if out, ok := t.memCall(c, defs, d, next); ok {
 						return out
 					}
+				}
+			}
+		}
+		if len(v.Lhs) == 1 && len(v.Rhs) == 1 && v.Tok == token.ADD_ASSIGN {
+			if id, ok := v.Lhs[0].(*ast.Ident); ok {
+				var g decGuards
+				cur := t.expr(id, &g)
+				val := t.expr(v.Rhs[0], &g)
+				n := t.define(t.obj(id), "Z")
+				return t.guarded(d, &g, fmt.Sprintf("%slet %s := (%s + %s)%%Z in\n%s", decInd(d), n, cur, val, next(d)))
+			}
+		}
+		if len(v.Lhs) == 1 && len(v.Rhs) == 1 && v.Tok == token.DEFINE && t.memObj == nil {
+			// sizeSim := make([]int, n): the (only) memory of the function
+			if c, ok := v.Rhs[0].(*ast.CallExpr); ok && t.text(c.Fun) == "make" && len(c.Args) == 2 {
+				if id, ok := v.Lhs[0].(*ast.Ident); ok {
+					var g decGuards
+					n := t.expr(c.Args[1], &g)
+					t.memObj = t.p.info.Defs[id]
+					nm := t.newMem()
+					fail := "IPanic"
+					if t.inLoop {
+						fail = "None"
+					}
+					return t.guarded(d, &g, fmt.Sprintf("%sif (%s <? 0)%%Z then %s else\n%slet %s := repeat 0%%N (Z.to_nat %s) in\n%s", decInd(d), n, fail, decInd(d), nm, n, next(d)))
 				}
 			}
 		}
@@ -715,9 +804,18 @@ func (t *impTr) stmts(list []ast.Stmt, d int, k impCont) string {
 		if v.Init != nil {
 			trFail("if with init statement")
 		}
-		var g decGuards
-		cond := t.expr(v.Cond, &g)
-		return t.guarded(d, &g, t.branch(cond, v.Body.List, v.Else, d, k, next))
+		inner := impCont{next: next, brk: k.brk, labels: k.labels}
+		thenK := func(d int) string { return t.snapshot(func() string { return t.stmts(v.Body.List, d, inner) }) }
+		var elseK func(d int) string
+		switch e := v.Else.(type) {
+		case nil:
+			elseK = func(d int) string { return t.snapshot(func() string { return next(d) }) }
+		case *ast.BlockStmt:
+			elseK = func(d int) string { return t.snapshot(func() string { return t.stmts(e.List, d, inner) }) }
+		default:
+			trFail("else-if chains are not supported")
+		}
+		return t.condBranch(v.Cond, thenK, elseK, d)
 	case *ast.SwitchStmt:
 		if v.Init != nil || v.Tag != nil {
 			trFail("unsupported switch")
@@ -758,6 +856,29 @@ func (t *impTr) stmts(list []ast.Stmt, d int, k impCont) string {
 	return ""
 }
 
+// condBranch branches on a condition with Go's short-circuit evaluation: the bound checks of the
+// right operand of || and && are made only when that operand is evaluated.
+func (t *impTr) condBranch(cond ast.Expr, thenK, elseK func(d int) string, d int) string {
+	switch c := cond.(type) {
+	case *ast.ParenExpr:
+		return t.condBranch(c.X, thenK, elseK, d)
+	case *ast.UnaryExpr:
+		if c.Op == token.NOT {
+			return t.condBranch(c.X, elseK, thenK, d)
+		}
+	case *ast.BinaryExpr:
+		if c.Op == token.LOR {
+			return t.condBranch(c.X, thenK, func(d int) string { return t.condBranch(c.Y, thenK, elseK, d) }, d)
+		}
+		if c.Op == token.LAND {
+			return t.condBranch(c.X, func(d int) string { return t.condBranch(c.Y, thenK, elseK, d) }, elseK, d)
+		}
+	}
+	var g decGuards
+	ct := t.expr(cond, &g)
+	return t.guarded(d, &g, fmt.Sprintf("%sif %s then\n%s\n%selse\n%s", decInd(d), ct, thenK(d+1), decInd(d), elseK(d+1)))
+}
+
 // snapshot runs f and restores the variable environment afterwards (both branches of a
 // conditional start from the same environment; each continues into its own copy of the rest).
 func (t *impTr) snapshot(f func() string) string {
@@ -791,6 +912,9 @@ func (t *impTr) branch(cond string, body []ast.Stmt, els ast.Stmt, d int, k impC
 
 func translateImp(tg trTarget) (name, def, doc string, err error) {
 	name = "go_" + tg.name
+	if tg.recv != "" {
+		name = "go_" + tg.recv + "_" + tg.name
+	}
 	defer func() {
 		if r := recover(); r != nil {
 			if te, ok := r.(trErr); ok {
@@ -830,7 +954,13 @@ func translateImp(tg trTarget) (name, def, doc string, err error) {
 			}
 		}
 	}
-	if t.memObj == nil {
+	if fn.Recv != nil && len(fn.Recv.List) == 1 && len(fn.Recv.List[0].Names) == 1 && strings.Contains(nodeText(p.fset, fn.Recv.List[0].Type), "SwitchPath") {
+		t.hopsObj = p.info.Defs[fn.Recv.List[0].Names[0]]
+		t.mem = "(@nil N)"
+		params = append(params, "(hops : list (N * N))")
+		t.taken["hops"] = true
+	}
+	if t.memObj == nil && t.hopsObj == nil {
 		trFail("no byte-slice parameter")
 	}
 	// named results start at their zero values
